@@ -90,7 +90,7 @@ def run(ctx):
     ctx.build(["c02"])
     mc(ctx)
     q = ctx.quick
-    per_arch = 3000 if q else 72000
+    per_arch = 3000 if q else 30000
     parts = 2 if q else 8
     jobs = []
     for a in ARCHS:
